@@ -239,6 +239,11 @@ Theorem c16_block_short_ids_somes_prefix : forall pre sids,
   exists k, TxsVerifyProofs.somes (TxsVerify.block_short_ids pre sids) = firstn k sids.
 Proof. exact TxsVerifyProofs.block_short_ids_somes_prefix. Qed.
 
+(* whatever the prefilled indexes are, every listed short id gets exactly one slot, in list order *)
+Theorem c16_block_short_ids_somes : forall pre sids,
+  TxsVerifyProofs.somes (TxsVerify.block_short_ids pre sids) = sids.
+Proof. exact TxsVerifyProofs.block_short_ids_somes. Qed.
+
 Redirect "out/C16.c16_decode_total_and_bounded" Print Assumptions c16_decode_total_and_bounded.
 Redirect "out/C16.c16_accepted_offsets_in_range" Print Assumptions c16_accepted_offsets_in_range.
 Redirect "out/C16.c16_strict_accepts_only_canonical" Print Assumptions c16_strict_accepts_only_canonical.
@@ -268,3 +273,4 @@ Redirect "out/C16.c16_txs_verify_fix_conservative" Print Assumptions c16_txs_ver
 Redirect "out/C16.c16_txs_verify_old_refuted" Print Assumptions c16_txs_verify_old_refuted.
 Redirect "out/C16.c16_block_short_ids_length" Print Assumptions c16_block_short_ids_length.
 Redirect "out/C16.c16_block_short_ids_somes_prefix" Print Assumptions c16_block_short_ids_somes_prefix.
+Redirect "out/C16.c16_block_short_ids_somes" Print Assumptions c16_block_short_ids_somes.
